@@ -12,22 +12,23 @@
 (* Deviation switch ShutdownWaitsForAll = TRUE: shutdown() of a switched-off protocol waits for a receive loop that    *)
 (* never ran (the early return missing): CleanExit must be refuted.                                                    *)
 EXTENDS Integers, Sequences, FiniteSets, TLC, Json
-CONSTANTS Protos, TemplateProtos, Sent, ShutdownWaitsForAll, EmitCases
+CONSTANTS Protos, TemplateProtos, Sent, ShutdownWaitsForAll, EmitCases,
+          Binds        \* the address the listeners are configured with: the wildcard (none), an IPv4 one, an IPv6 one
 
-VARIABLES enabled, producer, phase, udp, published, exited, written
-vars == <<enabled, producer, phase, udp, published, exited, written>>
+VARIABLES enabled, producer, bind, phase, udp, published, exited, written
+vars == <<enabled, producer, bind, phase, udp, published, exited, written>>
 
-Init == /\ enabled \in SUBSET Protos /\ producer \in BOOLEAN /\ phase = "running"
+Init == /\ enabled \in SUBSET Protos /\ producer \in BOOLEAN /\ bind \in Binds /\ phase = "running"
         /\ udp = [p \in Protos |-> 0] /\ published = [p \in Protos |-> 0] /\ exited = FALSE /\ written = {}
-(* `Sent` decodable datagrams are sent to every port; only a listener takes them *)
+(* `Sent` decodable datagrams are sent to every port AT THE CONFIGURED ADDRESS; only a listener takes them *)
 Traffic == /\ phase = "running"
            /\ udp' = [p \in Protos |-> IF p \in enabled THEN Sent ELSE 0]
            /\ published' = [p \in Protos |-> IF p \in enabled /\ producer THEN Sent ELSE 0]
-           /\ phase' = "fed" /\ UNCHANGED <<enabled, producer, exited, written>>
+           /\ phase' = "fed" /\ UNCHANGED <<enabled, producer, bind, exited, written>>
 Signal == /\ phase = "fed"
           /\ exited' = (~ShutdownWaitsForAll \/ enabled = Protos)
           /\ written' = enabled \cap TemplateProtos
-          /\ phase' = "over" /\ UNCHANGED <<enabled, producer, udp, published>>
+          /\ phase' = "over" /\ UNCHANGED <<enabled, producer, bind, udp, published>>
 Next == Traffic \/ Signal \/ (phase = "over" /\ UNCHANGED vars)
 Spec == Init /\ [][Next]_vars
 
@@ -36,5 +37,5 @@ EnabledWork == phase # "running" => \A p \in enabled : udp[p] = Sent
 PublishedIffProducer == phase # "running" => \A p \in enabled : published[p] = (IF producer THEN Sent ELSE 0)
 CleanExit == phase = "over" => exited /\ written = enabled \cap TemplateProtos
 Emit == (EmitCases /\ phase = "over") =>
-          PrintT("CASE " \o ToJson([enabled |-> enabled, producer |-> producer, udp |-> udp, published |-> published, written |-> written]))
+          PrintT("CASE " \o ToJson([enabled |-> enabled, producer |-> producer, bind |-> bind, udp |-> udp, published |-> published, written |-> written]))
 =============================================================================
